@@ -61,7 +61,7 @@ class Case:
 
         self.w = World(dict(peers=peers, apps=[{"tag": "a4", "id": 4, "behaviour": behaviour,
                                                  "peers": [p["name"] for p in peers]}],
-                            node={"retransmit_queue_size": N, "idle_timeout": 10 ** 6}))
+                            node={"retransmit_queue_size": N, "idle_timeout": 50, "dwa_timeout": 10 ** 6}))
         self.h = self.w.h
         self.app = self.w.apps["a4"]
         self.window = {}      # origin -> list of e2e (most recent N)
@@ -117,8 +117,32 @@ class Case:
                     self.run.cov["reconnects"] = self.run.cov.get("reconnects", 0) + 1
                     self.trace.append((step, "reconnected"))
                     continue
+                if kind == "idle":
+                    # silence for longer than the idle time: the node sends its watchdog request and awaits the answer -
+                    # still a ready connection, on which requests are served and answers recorded as before
+                    h.advance(51)
+                    h.settle()
+                    w.observe()
+                    self.run.cov["idle_steps"] = self.run.cov.get("idle_steps", 0) + 1
+                    self.trace.append((step, "idle"))
+                    continue
+                if kind == "dwa":
+                    sp.drain()
+                    d = [f for f in sp.frames if f.h.code == 280 and f.is_request]
+                    if not d or getattr(sp, "dwa_for", None) == (d[-1].h.hbh, d[-1].h.e2e):
+                        continue
+                    sp.dwa_for = (d[-1].h.hbh, d[-1].h.e2e)
+                    sp.send(M.dwa(f"relay{ci + 1}.verif.example", self.REALM, hbh=d[-1].h.hbh, e2e=d[-1].h.e2e))
+                    h.settle()
+                    w.observe()
+                    self.trace.append((step, "dwa"))
+                    continue
                 if kind == "req":
                     _, o, e, t, mode = step[:5]
+                    from diameter.node.peer import PEER_READY_WAITING_DWA
+                    cn = h.conn_of(sp)
+                    if cn is not None and cn.state == PEER_READY_WAITING_DWA:
+                        self.run.cov["requests_while_awaiting_dwa"] = self.run.cov.get("requests_while_awaiting_dwa", 0) + 1
                     origin = ORIGINS[o] if o < 2 else f"relay{ci + 1}.verif.example"    # 2: the peer itself
                     e2e = E2E[e]
                     self.hbh += 1
@@ -290,7 +314,8 @@ def run_shard(spec):
         small = [a for a in alpha if a[1] == 0 and a[2] < 2] + [("req", 1, 0, 1, "now"), ("sub",), ("dwr",),
                                                                 ("reconn",), ("req", 2, 0, 0, "now"), ("req", 2, 0, 1, "now"),
                                                                 ("wd", 0, 0, 0), ("wd", 0, 0, 1), ("wd", 0, 1, 1),
-                                                                ("req", 0, 0, 0, "noroute"), ("req", 0, 0, 1, "noapp")]
+                                                                ("req", 0, 0, 0, "noroute"), ("req", 0, 0, 1, "noapp"),
+                                                                ("idle",), ("dwa",)]
         i = 0
         for L in range(2, spec["length"] + 1):
             for seq in itertools.product(small, repeat=L):
@@ -322,8 +347,12 @@ def run_shard(spec):
                     seq.append(("wd", rng.randrange(2), rng.randrange(3), int(rng.random() < 0.6), 0, rng.randrange(nconn)))
                 elif r < 0.84:
                     seq.append(("reconn", 0, 0, 0, 0, rng.randrange(nconn)))
-                elif r < 0.92:
+                elif r < 0.90:
                     seq.append(("sub",))
+                elif r < 0.94:
+                    seq.append(("idle",))
+                elif r < 0.96:
+                    seq.append(("dwa", 0, 0, 0, 0, rng.randrange(nconn)))
                 else:
                     seq.append(("dwr", 0, 0, 0, 0, rng.randrange(nconn)))
             run.one(N, seq, nconn)
